@@ -12,7 +12,7 @@ pkg=$(echo "$dest" | cut -d/ -f1)
 tname=$(basename "$dest" .rs)
 mkdir -p "$(dirname "$dest")"; cp "$demo" "$dest"
 echo "--- demo on the clean tree"
-cargo test -p "$pkg" --test "$tname" --offline 2>&1 | grep -E "^test result|error\[" | head -3
+cargo test -p "$pkg" ${SEED_FEATURES:+--features "$SEED_FEATURES"} --test "$tname" --offline 2>&1 | grep -E "^test result|error\[" | head -3
 echo "--- applying patch"
 git apply "$sd/patch.diff" || { echo "PATCH DOES NOT APPLY"; exit 1; }
 rm -f "$dest"
@@ -20,5 +20,5 @@ echo "--- repository suite with the patch"
 cargo test --workspace --no-fail-fast --offline 2>&1 | grep -E "^test result" | awk '{p+=$4; f+=$6} END {print "passed",p,"failed",f}'
 mkdir -p "$(dirname "$dest")"; cp "$demo" "$dest"
 echo "--- demo with the patch"
-cargo test -p "$pkg" --test "$tname" --offline 2>&1 | grep -E "^test result|error\[" | head -3
+cargo test -p "$pkg" ${SEED_FEATURES:+--features "$SEED_FEATURES"} --test "$tname" --offline 2>&1 | grep -E "^test result|error\[" | head -3
 rm -f "$dest"; git checkout -q -- .
